@@ -185,6 +185,19 @@ def check(ctx, rep):
     if n_agg < 5:
         rep.bad('R20.c', 'sites', 'expected at least 5 helpers receiving aggregated Indexed tuples, found %d' % n_agg)
     check_cross_crate_identity(rep, cli)
+    # R20.g: the registry is a function of the description alone: the generator keeps no process-wide mutable state (a memo keyed by
+    # (crate name, item id) outlives the run and answers for another description of the same name)
+    rep.rule('R20.g', 'crux_cli has no process-wide mutable state besides regexes compiled once from literals', floor=5)
+    for st_ in cli.statics:
+        ty_ = st_['ty']
+        key_ = 'static|%s' % norm(st_['path'])
+        if st_['freeze'] and not st_['mutable']:
+            rep.ok('R20.g', key_, 'immutable data')
+        elif re.match(r'^(once_cell::sync::Lazy|std::sync::lazy_lock::LazyLock|lazy_regex::\w+::Lazy)<regex::(regex::)?(string|bytes)?(::)?\w*Regex>$', ty_) and not st_['mutable']:
+            rep.ok('R20.g', key_, 'a regex compiled once from a literal')
+        else:
+            rep.bad('R20.g', key_, 'process-wide mutable static %s : %s in the type generator: what it remembers from one description can change the '
+                    'registry derived from the next' % (norm(st_['path']), ty_))
     # ---- R20.d
     fs = [f for f in fns if f.npath == 'crux_cli::codegen::format']
     ok = len(fs) == 1 and fs[0].locals[0].startswith('alloc::collections::btree::map::BTreeMap<alloc::string::String,')
